@@ -1,7 +1,7 @@
 SPECIFICATION Spec
 CONSTANTS
   N = 4
-  Decs = {"nil", "A", "B"}
+  Decs = {"nil", "A", "A3", "B"}
   TS = {1, 2}
   MaxOps = 3
   Depth = 3
